@@ -31,7 +31,7 @@ TRUSTED = [
     'CPython: small ints identical iff equal, copy.copy / copy.deepcopy of list and dict of ints, attribute lookup along __mro__',
 ]
 ASSUMPTIONS = [
-    'values are small ints and lists of ints; Parameter types Parameter / Integer / Selector(list-declared objects); '
+    'values are None, small ints and lists of ints; Parameter types Parameter / Integer / Selector(list-declared objects); '
     'subclasses add new names only (an inherited Parameter is overridden only by class-level assignment)',
     'ListSelector, names-declared Selectors, watchers, references, disable_instance_params, readonly, set-before-super().__init__ '
     'and assignment of `.default`/`.per_instance`/`.instantiate` on a Parameter are outside the model',
@@ -46,7 +46,7 @@ COVERAGE_TARGETS = [
     'mkClass:root:ok', 'mkClass:sub:ok', 'mkInst:plain:ok', 'mkInst:kwargs:ok', 'mkInst:kwargs:ValueError',
     'setVal:cls:own:ok', 'setVal:cls:copy-on-write:ok', 'setVal:cls:copy-on-write:ValueError',
     'setVal:inst:first-touch:ok', 'setVal:inst:has-copy:ok', 'setVal:inst:first-touch:ValueError', 'setVal:inst:has-copy:TypeError',
-    'mutVal:inst:ok', 'mutVal:cls:ok', 'mutVal:inst:AttributeError',
+    'mutVal:inst:ok', 'mutVal:cls:ok', 'mutVal:inst:AttributeError', 'decl:plain:none-default:inst', 'decl:plain:none-default:const',
     'access:creates-copy:ok', 'access:existing:ok', 'access:shared-per_instance=False:ok',
     'slotSet:inst:boundsTup:ok', 'slotSet:inst:boundsList:ok', 'slotSet:inst:objects:ok', 'slotSet:inst:constant:ok',
     'slotSet:inst:precedence:ok', 'slotSet:cls:boundsList:ok', 'slotSet:cls:objects:ok', 'slotSet:cls:constant:ok',
@@ -90,6 +90,8 @@ class _World:
         return len(self.cells) - 1
 
     def val(self, v):
+        if v is None:
+            return None
         if isinstance(v, bool) or not isinstance(v, (int, list)):
             raise RuntimeError(f'value outside the modelled universe: {v!r}')
         if isinstance(v, int):
@@ -374,6 +376,11 @@ def directed():
                  sset(I(0), 0, objects=[1]), smut(I(0), 5, boundsSetHi=3), smut(I(0), 1, boundsSetHi=3), mkInst(0, [(0, 99)]), setV(I(2), 0, 1), acc(2, 0),
                  mkInst(0, [(1, 50), (0, 99)]), mkInst(1, [(6, 9)]), setV(C(1), 6, 9), setV(C(1), 0, 99), mkInst(0, [(9, 1)])]
     yield two + [mkClass([1, 0], [D(7, 'plain', 0)]), mkInst(2), setV(C(2), 1, 5), setV(C(1), 1, 6), setV(I(2), 7, [1]), mutV(I(2), 7, 2), setV(C(2), 7, 1)]
+    # defaults that are None at construction time and filled in on the class later
+    yield [mkClass([], [D(0, 'plain', None, inst=True), D(1, 'plain', None, const=True), D(2, 'plain', None), D(3, 'plain', None, inst=True, const=True)]),
+           mkClass([0], []), mkInst(0), mkInst(1), setV(C(0), 0, [1, 2]), setV(C(0), 1, 7), setV(C(0), 2, [3]), setV(C(1), 3, [4]), mutV(C(0), 0, 9),
+           mkInst(0), mkInst(1, [(0, None), (2, None)]), setV(I(2), 0, None), setV(I(0), 2, None), setV(C(0), 2, None), mutV(I(0), 0, 1), mutV(I(2), 0, 5),
+           setV(I(0), 1, None), setV(I(0), 1, 3)]
     yield [mkClass([], [D(0, 'number', 1, btup=[0, 5], inst=True, const=True), D(1, 'plain', [1], inst=True, const=True)]), mkInst(0), mkInst(0, [(0, 2), (1, [5])]),
            setV(C(0), 1, [2]), mutV(C(0), 1, 3), mutV(I(0), 1, 4), setV(I(1), 0, 2), setV(I(1), 0, 3)]
 
@@ -396,6 +403,8 @@ def _rand_decl(rng, name):
     pi = rng.random() < 0.85
     const = rng.random() < 0.2
     if kind == 'plain':
+        if rng.random() < 0.2:
+            return D(name, kind, None, inst=rng.random() < 0.5, const=rng.random() < 0.4, pi=pi)
         if rng.random() < 0.65:
             return D(name, kind, [rng.randint(1, 9) for _ in range(rng.randint(0, 2))], inst=rng.random() < 0.5, const=const, pi=pi)
         return D(name, kind, rng.randint(0, 9), inst=rng.random() < 0.3, const=const, pi=pi)
@@ -478,6 +487,8 @@ def _random_case(rng, leaky):
 
 def _value(rng, d, safe):
     if d['kind'] == 'plain':
+        if rng.random() < 0.12:
+            return None
         return [rng.randint(1, 9) for _ in range(rng.randint(0, 2))] if rng.random() < 0.5 else rng.randint(0, 9)
     if d['kind'] == 'number':
         return rng.randint(0, 5) if safe or rng.random() < 0.7 else rng.randint(0, 40)
@@ -541,6 +552,8 @@ def tags(case, impl):
             if op['op'] == 'mkClass':
                 for d in op['decls']:
                     t.append(f'decl:{d["kind"]}:inst={int(d["inst"])}:const={int(d["const"])}:pi={int(d["pi"])}')
+                    if d['default'] is None:
+                        t += [f'decl:plain:none-default:{k}' for k in ('inst', 'const') if d[k]]
     return t
 
 
